@@ -73,6 +73,13 @@ def run_ops(pname, ops):
                         val = fp(r[1]) if r[0] == 'res' else jsonrpc.RPCError(r[1], fp(r[2]))
                         m = received[op[1]].send_result(val)
                         o = {'msg': None if m is None else list(m)}
+                elif kind == 'abandon':
+                    # the caller stops waiting (e.g. its sent_request_timeout expired): the future is cancelled,
+                    # the entry stays in the table until a response arrives
+                    ks = [k for k in futures if k[0] == 'one']
+                    if op[1] < len(ks):
+                        futures[ks[op[1]]].cancel()
+                    o = {}
                 elif kind == 'cancel_all':
                     n = len(conn._requests)
                     conn.cancel_pending_requests()
@@ -127,6 +134,10 @@ def respval_term(r):
 def coq_case(pname, ops, result):
     fp = jv.from_plain
     terms = []
+    if any(op[0] == 'abandon' for op in ops):
+        return None       # a caller that gave up is outside the connection model: oracle only
+    if any(op[0] == 'receive' and cc.has_noncanonical_float(op[1]) for op in ops):
+        return None       # float tokens other than repr(x) are outside the model's float oracle: oracle only
     for op, o in zip(ops, result['obs']):
         kind = op[0]
         if 'escape' in o and kind != 'receive':
